@@ -41,7 +41,7 @@ J gen(uint64_t seed, bool thorough) {
   sc["T"] = (long long)T;
   J ops = J::arr();
   struct LiveCv { std::string name; CvSpec spec; std::pair<double, double> range; bool ext = false; };
-  struct LiveBias { std::string name; std::vector<std::string> cvs; };
+  struct LiveBias { std::string name; std::vector<std::string> cvs; bool mts = false; };
   std::vector<LiveCv> cvs; std::vector<LiveBias> biases;
   int ncv_made = 0, nb_made = 0;
   int nops = (int)r.range(4, thorough ? 40 : 18);
@@ -80,10 +80,17 @@ J gen(uint64_t seed, bool thorough) {
       if (t == "abf_noapply") { size_t q = bs.config.rfind("}"); bs.config.insert(q, "  applyBias off\n"); size_t h = bs.config.find("  historyFreq"); if (h != std::string::npos) bs.config.erase(h, bs.config.find('\n', h) - h + 1); h = bs.config.find("  outputFreq"); if (h != std::string::npos) bs.config.erase(h, bs.config.find('\n', h) - h + 1); }
       size_t p = bs.config.find("  timeStepFactor");
       if (p != std::string::npos) bs.config.erase(p, bs.config.find('\n', p) - p + 1);
+      // some biases sleep between multiples of their factor (deleting or switching one while it sleeps is a different path)
+      if (!any_ext && t != "abf_noapply" && r.chance(0.15)) { size_t q = bs.config.rfind("}"); bs.config.insert(q, "  timeStepFactor " + std::to_string(r.range(2, 3)) + "\n"); b.mts = true; }
       while ((p = bs.config.find("  writeTI")) != std::string::npos) bs.config.erase(p, bs.config.find('\n', p) - p + 1);
       op["op"] = "addbias"; op["name"] = b.name; op["config"] = bs.config; op["tmpl"] = t;
       J cv = J::arr(); for (auto &n : b.cvs) cv.push(n); op["cvs"] = cv;
       biases.push_back(b); sig += "B";
+    } else if (u < 0.535 && !biases.empty()) {
+      // switch a bias off or on through the script interface (biases without a factor only: an MTS bias cannot be switched, C08 finding)
+      std::vector<size_t> plain; for (size_t q = 0; q < biases.size(); q++) if (!biases[q].mts) plain.push_back(q);
+      if (plain.empty()) { op["op"] = "run"; op["name"] = ""; op["n"] = 1; steps += 1; sig += "r"; }
+      else { size_t q = plain[r.below(plain.size())]; op["op"] = r.chance(0.6) ? "off" : "on"; op["name"] = biases[q].name; sig += op.at("op").as_str() == "off" ? "x" : "o"; }
     } else if (u < 0.62 && !biases.empty()) {
       size_t q = r.below(biases.size());
       op["op"] = "delbias"; op["name"] = biases[q].name;
@@ -144,6 +151,19 @@ std::vector<bool> twin_skips(J const &ops, std::vector<bool> const &rejected) {
     }
   }
   for (auto const &in : inst) if (in.doomed) skip[in.add_op] = true;
+  // switching a bias that is deleted later is part of that bias's story
+  {
+    std::vector<std::pair<std::string, bool>> alive;   // (name, doomed) in definition order
+    for (size_t i = 0; i < n; i++) {
+      std::string k = ops.a[i].at("op").as_str();
+      if (k != "off" && k != "on") continue;
+      std::string nm = ops.a[i].at("name").as_str();
+      // the instance this op refers to: the last one defined before i with that name
+      bool doomed = false, found = false;
+      for (auto const &in : inst) if (in.bias && in.name == nm && in.add_op < i) { doomed = in.doomed; found = true; }
+      if (!found || doomed) skip[i] = true;
+    }
+  }
   return skip;
 }
 
@@ -183,6 +203,8 @@ Outcome execute(J const &plan, std::vector<bool> const *skip, RunResult &res, bo
       e->run_script({"cv", "config", op.at("config").as_str()});
       bool there = k == "addcv" ? cvm::colvar_by_name(nm) != NULL : cvm::bias_by_name(nm) != NULL;
       if (!there) { out.rejected[i] = true; if (out.fail_msg.empty()) out.fail_msg = nm + ": " + e->last_error(); }
+    } else if (k == "off" || k == "on") {
+      if (cvm::bias_by_name(nm)) e->run_script({"cv", "bias", nm, "set", "active", k == "on" ? "1" : "0"});
     } else if (k == "delbias") {
       if (cvm::bias_by_name(nm)) e->run_script({"cv", "bias", nm, "delete"});
     } else if (k == "delcv") {
@@ -222,20 +244,26 @@ RunResult run(J const &plan) {
   if (!test.deps_err.empty()) res.fail("dependency_graph", test.deps_sig + "/after_" + test.deps_when, test.deps_err);
   if (!res.violation && test.snaps.size() != twin.snaps.size()) res.fail("twin", "step_count", std::to_string(test.snaps.size()) + " vs " + std::to_string(twin.snaps.size()));
   long compared = 0, full = 0;
+  std::set<std::string> ext_names; for (auto const &op : plan.at("ops").a) if (op.at("op").as_str() == "addcv" && op.at("config").as_str().find("extendedLagrangian on") != std::string::npos) ext_names.insert(op.at("name").as_str());
   std::set<std::string> tainted;   // variables that slept at some point: their later history (fictitious coordinate) legitimately differs
   std::string feature_diff, feature_sig;
   std::string sleeping;   // first occurrence of the variable-goes-to-sleep finding; the comparison goes on without that variable
   for (size_t i = 0; i < test.snaps.size() && !res.violation; i++) {
     Snap const &a = test.snaps[i], &b = twin.snaps[i];
     std::string at = "step " + std::to_string(a.step) + " (record " + std::to_string(i) + ")";
+    if (getenv("CVSIM_C13_TRACE")) { fprintf(stderr, "rec %zu step %ld err %d/%d:", i, a.step, a.err, b.err); for (auto const &kv : b.cv) { auto it = a.cv.find(kv.first); fprintf(stderr, " %s=%.10g/%.10g act %d/%d", kv.first.c_str(), it == a.cv.end() || it->second.empty() ? NAN : it->second[0], kv.second.empty() ? NAN : kv.second[0], (int)(a.cv_active.count(kv.first) ? a.cv_active.at(kv.first) : -1), (int)b.cv_active.at(kv.first)); } fprintf(stderr, "\n"); }
     if (a.err != b.err) {
       std::string m = a.err ? a.errmsg : b.errmsg; std::string cls;
+      // the twin's fictitious coordinate slept (its remaining biases were switched off or asleep) and is woken off schedule: the
+      // library's complaint about that is the twin's own doing, not an effect of the deleted objects
+      if (!a.err && m.find("extended-Lagrangian") != std::string::npos && m.find("but was activated after") != std::string::npos) { res.counters["probe.twin_woke_a_sleeping_fictitious_coordinate"]++; break; }
       for (char ch : m) { if (ch == '"') break; if (!isdigit((unsigned char)ch) && ch != '\n') cls += ch; }
       while (!cls.empty() && cls[0] == ' ') cls.erase(0, 1);
       if (cls.size() > 70) cls.resize(70);
       res.fail("twin", "error_raised_only_" + std::string(a.err ? "with_deleted_objects" : "in_twin") + "/" + cls, at + ": error bits " + std::to_string(a.err) + ", twin " + std::to_string(b.err) + ": " + m);
       break;
     }
+    if (a.err && b.err) { res.counters["probe.runs_ending_in_a_step_error_in_both"]++; break; }   // a step that raises an error in both runs stops half-way: nothing defined to compare from here on
     if (a.cv.size() == b.cv.size() && a.be.size() == b.be.size()) {
       // same live objects: every object must have the same capabilities enabled as in the twin
       for (auto const &kv : b.feat) {
@@ -256,9 +284,19 @@ RunResult run(J const &plan) {
       }
       // (a capability left enabled is not a violation by itself: it is reported with the observable difference it causes, if any)
     }
+    bool twin_sleeps = false;
     for (auto const &kv : b.cv) {
       auto it = a.cv.find(kv.first);
       if (it == a.cv.end()) { res.fail("twin", "survivor_missing", at + ": variable " + kv.first + " exists in the twin but not in the run with deletions"); break; }
+      // a variable whose biases all sleep at this step (timeStepFactor) is legitimately not evaluated: when that happens in the twin
+      // there is nothing to compare at this step
+      if (b.cv_active.count(kv.first) && !b.cv_active.at(kv.first)) {
+        twin_sleeps = true;
+        // a fictitious coordinate only integrates while its variable is awake: if a doomed bias kept it awake in the run with
+        // deletions while it slept in the twin (switched-off or sleeping biases), its later history legitimately differs
+        if (ext_names.count(kv.first) && a.cv_active.count(kv.first) && a.cv_active.at(kv.first)) tainted.insert(kv.first);
+        continue;
+      }
       bool inactive = a.cv_active.count(kv.first) && !a.cv_active.at(kv.first) && b.cv_active.count(kv.first) && b.cv_active.at(kv.first);
       if (inactive) tainted.insert(kv.first);
       if (tainted.count(kv.first)) { if (inactive && sleeping.empty()) sleeping = at + ": variable " + kv.first + " is no longer evaluated (value " + fmt_double(it->second.empty() ? 0 : it->second[0]) + ", twin " + fmt_double(kv.second.empty() ? 0 : kv.second[0]) + ")"; continue; }
@@ -275,7 +313,7 @@ RunResult run(J const &plan) {
     bool any_sleeping = false;
     for (auto const &kv : b.cv_active) if (kv.second && a.cv_active.count(kv.first) && !a.cv_active.at(kv.first)) any_sleeping = true;
     // (a sleeping variable applies no force either: totals are only compared on steps where none sleeps)
-    bool same_sets = a.cv.size() == b.cv.size() && a.be.size() == b.be.size() && !any_sleeping && tainted.empty();
+    bool same_sets = a.cv.size() == b.cv.size() && a.be.size() == b.be.size() && !any_sleeping && !twin_sleeps && tainted.empty();
     if (same_sets) {
       full++;
       if (a.fapp.size() != b.fapp.size() || memcmp(a.fapp.data(), b.fapp.data(), a.fapp.size() * sizeof(double)) != 0) {
